@@ -844,7 +844,12 @@ func TestVerifC04Upgrader(t *testing.T) {
 	only := os.Getenv("VERIF_C04_ONLY") // e.g. "noise/early/nopsk|err@d3" for replaying one case
 	evals, hits, idx := 0, 0, 0
 	stages := map[string]int{}
+	stuck := 0 // scenarios that could not finish: after a few of them the point is made (each costs the watchdog's limit)
 	run := func(cfg vfC04Cfg, plan vfC04Plan) vfC04Outcome {
+		if stuck >= 4 && plan.Kind != "none" {
+			res.Inc("skipped_after_stuck", 1)
+			return vfC04Outcome{}
+		}
 		name := fmt.Sprintf("u%d", idx)
 		idx++
 		tr := vfh.NewTrace(name)
@@ -869,11 +874,23 @@ func TestVerifC04Upgrader(t *testing.T) {
 		if out.Hung != "" {
 			res.Inc("hangs", 1)
 		}
+		if out.Hung != "" || out.Deadlock != "" {
+			stuck++
+		}
 		return out
 	}
 	if only != "" {
+		// replay of one case (used by the driver to reproduce a rejected ledger before it reports it)
 		parts := strings.SplitN(only, "|", 2)
-		for _, cfg := range append(vfC04Configs(), vfC04Cfg{Sec: "noise", Early: true, PSK: "bad"}) {
+		all := append(vfC04Configs(), vfC04Cfg{Sec: "noise", Early: true, PSK: "bad"}, vfC04Cfg{Sec: "tls", Early: true, PSK: "bad"})
+		for _, s := range []string{"noise", "tls"} {
+			for _, e := range []bool{true, false} {
+				for _, p := range []string{"", "ok"} {
+					all = append(all, vfC04Cfg{Sec: s, Early: e, PSK: p})
+				}
+			}
+		}
+		for _, cfg := range all {
 			if cfg.String() != parts[0] {
 				continue
 			}
@@ -881,9 +898,13 @@ func TestVerifC04Upgrader(t *testing.T) {
 			if err := json.Unmarshal([]byte(parts[1]), &plan); err != nil {
 				t.Fatal(err)
 			}
-			out := run(cfg, plan)
-			t.Logf("%s %s -> %+v", cfg, plan, out)
+			for r := 0; r < vfh.EnvInt("VERIF_C04_REPEAT", 1); r++ {
+				out := run(cfg, plan)
+				t.Logf("%s %s -> %+v", cfg, plan, out)
+			}
+			break
 		}
+		res.Set("evaluations", evals)
 		res.Traces = []string{path}
 		return
 	}
@@ -892,7 +913,14 @@ func TestVerifC04Upgrader(t *testing.T) {
 		nd, nl := 0, 0
 		for r := 0; r < 2; r++ {
 			out := run(cfg, vfC04Plan{Kind: "none"})
-			if len(out.DialErr) > 0 || out.Accepted != 1 || out.Deadlock != "" || out.Hung != "" {
+			if out.Deadlock != "" && len(out.DialErr) == 0 && out.Accepted == 1 {
+				// even the fault-free attempt cannot finish: its ledger (with the deadlock line) is the evidence
+				res.Inc("skipped_after_stuck", 1)
+				res.Set("evaluations", evals)
+				res.Traces = []string{path}
+				return
+			}
+			if len(out.DialErr) > 0 || out.Accepted != 1 || out.Hung != "" {
 				t.Fatalf("dry run failed for %s: %+v", cfg, out)
 			}
 			nd, nl = max(nd, out.OpsD), max(nl, out.OpsL)
